@@ -23,7 +23,6 @@ func TestVerifC07Concurrent(t *testing.T) {
 	defer r.Finish()
 	r.SetRule("Each case opens one engine (typed, compat or factory surface in rotation) and runs 4-8 goroutines, each owning one channel and a private sequential model with a disjoint message-id range, for 2-3 concurrent phases separated by whole-DB close+reopen with a full audit of all channels. Non-trivial = a goroutine's channel saw a truncation/trim, an accepted append after it and a reopen. Distinct by surface + goroutine count + collapsed op-kind sequence of each goroutine.")
 	r.Assume("message ids of different goroutines are disjoint (as the node-scoped allocator guarantees), so per-channel models are independent")
-	r.Assume("typed surface: same two input-shape exclusions as the main unit (non-empty payloads, no TruncateFrom below the persisted RetainedMaxSeq); they are covered by the main unit's probe cases")
 	n := r.N(3, 15)
 	ops := r.N(14, 28)
 	base := t.TempDir()
